@@ -47,6 +47,10 @@ pub fn handle(op: &str, req: &Value) -> Option<Value> {
     if req["previous"].as_bool().unwrap_or(false) {
         out["previous_save_ok"] = json!(save(&old, &path, !compress).is_ok());
     }
+    if req["stale_tmp"].as_bool().unwrap_or(false) && req["stage"].as_str() != Some("before-rename") {
+        // an earlier save died while writing: a long temporary file is still there
+        std::fs::write(path.with_extension("tmp"), vec![0xA5u8; 200_000]).unwrap();
+    }
     if req["stage"].as_str() == Some("before-rename") {
         // the bytes the new save would write, cut at the requested fraction, sit in the temporary file; path is untouched
         let scratch = dir.join("scratch");
